@@ -15,6 +15,7 @@ DECLS = [
     D('sec', 'sec', F_MULTI | F_TITLE, sub=SUB_SEC),
     D('msec', 'sec', F_MULTI, sub=[D('y', 'int', default=0)]),
     D('one', 'sec', 0, sub=[D('z', 'int', default=1)]),
+    D('longsec_' + 'n' * 70, 'sec', F_MULTI | F_TITLE, sub=[D('x', 'int', default=1)]),
     # "simple" options: the value lives in a variable of the application
     D('si', 'int', simple=True), D('ss', 'str', simple=True), D('sf', 'float', simple=True), D('sb', 'bool', simple=True),
 ]
@@ -61,6 +62,10 @@ OPS += [
     ['set', 'str', 's', None, None], ['set', 'str', 'sl', None, 1], ['set', 'str', 'sl', None, 2], ['optset', 'str', 'sl', None, 0], ['setlist', 'sl', 'str', ['p', None]],
     ['addlist', 'sl', 'str', [None]],
     # far indices and positions (meaningful from the large start state)
+    ['set', 'str', 's', 'L' * 5000, None], ['set', 'str', 'sl', 'M' * 4097, 1], ['addlist', 'sl', 'str', ['a', 'N' * 70000, 'b']], ['setlist', 'sl', 'str', ['O' * 4096, 'P' * 4095]],
+    ['addtsec', 'longsec_' + 'n' * 70, 'T' * 300], ['set', 'int', 'longsec_' + 'n' * 70 + '=' + 'T' * 300 + '|x', 5, None], ['rmsec', 'longsec_' + 'n' * 70 + '=' + 'T' * 300],
+    ['addtsec', 'sec', 'U' * 5000], ['rmtsec', 'sec', 'U' * 5000],
+    ['addlist', 'il', 'int', [1, 2, 3, 4]],
     ['set', 'int', 'il', 77, 39], ['set', 'int', 'il', 78, 40], ['rmnsec', 'sec', 19], ['rmnsec', 'msec', 19], ['rmnsec', 'msec', 10], ['rmtsec', 'sec', 's19'], ['rmtsec', 'sec', 's0'],
     ['rmsec', 'sec=s10'], ['rmsec', 'msec=19'], ['set', 'int', 'sec=s19|x', 5, None], ['set', 'int', 'msec=19|y', 6, None], ['addtsec', 'sec', 's20'], ['set', 'str', 'sl', 'far', 19],
 ]
@@ -76,6 +81,8 @@ STARTS = {
     'p1': 'i = 3\nil = {4, 5, 6}\nsl += {c}\nsec t1 { x = 1 }\nsec t2 { xl += {8} }\nmsec { y = 1 }\nmsec { y = 2 }\none { z = 7 }\n',
     'p2': 'il = {}\nsl = {only}\nel = {1,2,3}\nnd = 4\nsec t2 { }\nsec t1 { x = 2 }\nmsec { }\n',
     'p3': 'il += {9}\ns = "p"\nf = 2\nb = yes\nsec t1 { }\nsec t1 { x = 5 }\n',
+    # just below a round number of list elements: the appending calls cross it
+    'p5': 'il = {%s}\n' % ', '.join(str(k % 97) for k in range(1022)),
     # sizes beyond the first array-growth steps: 40 list elements, 20 titled and 20 untitled sections
     'p4': 'il = {%s}\nsl = {%s}\n%s%s' % (', '.join(str(k) for k in range(40)), ', '.join('w%d' % k for k in range(20)),
                                             ''.join('sec s%d { x = %d }\n' % (k, k) for k in range(20)) + 'sec t1 { x = 1 }\nsec t2 { }\n', ''.join('msec { y = %d }\n' % k for k in range(20))),
@@ -111,6 +118,8 @@ def start_model(which):
     elif which == 'p3':
         setv(o('il'), [1, 2, 9]); setv(o('s'), ['p']); setv(o('f'), [2.0]); setv(o('b'), [1])
         t1 = addsec('sec', 't1'); setv(o('x', t1), [5])
+    elif which == 'p5':
+        setv(o('il'), [k % 97 for k in range(1022)])
     elif which == 'p4':
         setv(o('il'), list(range(40))); setv(o('sl'), ['w%d' % k for k in range(20)])
         for k in range(20):
@@ -222,9 +231,13 @@ def gen(tier, seed):
         for d in range(1, pdepth + 1):
             for seq in itertools.product(range(n if d < 3 else NCORE), repeat=d):
                 yield {'start': st, 'ops': list(seq)}
+    app = [k for k, op in enumerate(OPS) if op[0] in ('addlist', 'setlist') and op[1] == 'il' or (op[0] == 'set' and op[2] == 'il')]
+    for a in app:
+        for b in app:
+            yield {'start': 'p5', 'ops': [a, b, a]}
     rng = core.seeded_rng(seed, 'c09')
     for _ in range(400 if tier == 'quick' else 20000):
-        yield {'start': rng.choice(list(STARTS)), 'ops': [rng.randrange(n) for _ in range(30)]}
+        yield {'start': rng.choice([k for k in STARTS if k != 'p5']), 'ops': [rng.randrange(n) for _ in range(30)]}
 
 
 def run(tier, seed, bindirs):
